@@ -312,6 +312,12 @@ impl World {
                 bytes == b && done == pages_done && total == remaining
             }
             (ModelPending::Complete(r), RespKind::Complete { blocks, next }) => &r.blocks == blocks && &r.next == next,
+            // the complete response was processed in the message that received it (not today's
+            // phase order, but nothing in C13 forbids it); admission is checked by sync_model
+            (ModelPending::Complete(_), RespKind::None) => {
+                self.stats.probe("processed_in_callback");
+                true
+            }
             _ => false,
         };
         if !ok {
@@ -348,9 +354,15 @@ impl World {
 
         // ---- C13 (i)(ii): requests issued in this message ----
         let new_requests = canister::take_request_log();
-        for r in &new_requests {
-            self.check_request(r, before)?;
-        }
+        let anchor_at_start = self.tree.anchor;
+        let others_at_start: BTreeSet<Hash32> = self
+            .tree
+            .nodes
+            .keys()
+            .filter(|i| **i != self.tree.anchor)
+            .map(|i| self.block(*i).hash)
+            .collect();
+        let pending_complete_at_start = matches!(self.pending, ModelPending::Complete(_));
         if canister::outstanding_requests().len() > 1 {
             return Err(violation(
                 "C13",
@@ -360,7 +372,9 @@ impl World {
         }
 
         // ---- C08 (b): nothing is fetched or processed while a block is being ingested ----
-        if before.ingesting.is_some() {
+        // ("while it is in progress": the block was mid-ingestion when the message began and still
+        // is when it ends; a message in which the ingestion *finishes* may go on to fetch)
+        if before.ingesting.is_some() && after.ingesting == before.ingesting {
             if !new_requests.is_empty() {
                 return Err(violation(
                     "C08",
@@ -511,21 +525,20 @@ impl World {
             }
         }
         if kind == MsgKind::HeartbeatStart && advanced && after.ingesting.is_none() {
-            // after the loop no further advance may be due on the tree as it stood
+            // "On the next ingestion opportunity": a heartbeat that advanced the anchor has used its
+            // opportunity. Whether it goes on to a second block that is already due (today's loop)
+            // or leaves it to the next heartbeat is not part of the statement; the next heartbeat is
+            // then checked by the clause above (an advance due at its start must happen in it).
             let verdict = model::stability_verdict(&self.tree, self.threshold, self.testnet_like());
-            if let Some(req) = verdict.required {
-                return Err(violation(
-                    "C03",
-                    "advance-withheld",
-                    format!("ingestion stopped although child #{req} of the new anchor is stable"),
-                ));
+            if verdict.required.is_some() {
+                self.stats.probe("advance_left_for_next_heartbeat");
             }
         }
 
         // ---- admission (C10) ----
-        let processed = matches!(before.resp, RespKind::Complete { .. })
-            && after.resp == RespKind::None
-            && kind == MsgKind::HeartbeatStart;
+        // A complete response the model holds (stored earlier, or received in this very message) is
+        // gone from the canister: it has been processed.
+        let processed = matches!(self.pending, ModelPending::Complete(_)) && after.resp == RespKind::None;
         if processed {
             let reply = match std::mem::replace(&mut self.pending, ModelPending::None) {
                 ModelPending::Complete(r) => r,
@@ -550,7 +563,16 @@ impl World {
                 Some("undecodable") => (1, 0),
                 Some(_) => (0, 1),
             };
-            if self.is_active("C10") && (d_deser, d_ins) != expect {
+            // The statement says "an error counter": which of the two counters records a given
+            // class of reject is not part of it, only that exactly one error is counted.
+            let ok = match reject {
+                None => (d_deser, d_ins) == (0, 0),
+                Some(_) => d_deser + d_ins == 1,
+            };
+            if (d_deser, d_ins) != expect && ok {
+                self.stats.probe("error_counted_in_other_counter");
+            }
+            if self.is_active("C10") && !ok {
                 return Err(violation(
                     "C10",
                     "error-counter-mismatch",
@@ -576,6 +598,13 @@ impl World {
                 "response-not-processed",
                 "a heartbeat with a complete response stored and nothing to ingest did not process it".into(),
             ));
+        }
+
+        // ---- C13 (i)(ii): requests issued in this message ----
+        // The request must describe the tree either as it stood when the message began or as it
+        // stands now (a heartbeat may legitimately ingest or process first and fetch afterwards).
+        for r in &new_requests {
+            self.check_request(r, (anchor_at_start, &others_at_start, pending_complete_at_start))?;
         }
 
         if before.hashes != after.hashes || before.stable_height != after.stable_height {
@@ -620,7 +649,7 @@ impl World {
     }
 
     /// RefFetch: the request grammar of C13.
-    fn check_request(&mut self, r: &GetSuccessorsRequest, before: &Observed) -> Check {
+    fn check_request(&mut self, r: &GetSuccessorsRequest, at_start: (usize, &BTreeSet<Hash32>, bool)) -> Check {
         self.stats.oracle_comparisons += 1;
         match r {
             GetSuccessorsRequest::FollowUp(k) => match self.expect_follow_up {
@@ -639,7 +668,7 @@ impl World {
                         format!("Initial request issued while FollowUp({:?}) is due", self.expect_follow_up),
                     ));
                 }
-                if matches!(self.pending, ModelPending::Complete(_)) {
+                if matches!(self.pending, ModelPending::Complete(_)) && at_start.2 {
                     return Err(violation(
                         "C13",
                         "request-while-complete-stored",
@@ -647,7 +676,6 @@ impl World {
                     ));
                 }
                 // anchor + exactly the other unstable hashes (as of the start of the message)
-                let _ = before;
                 let anchor_hash = self.block(self.tree.anchor).hash;
                 let model_others: BTreeSet<Hash32> = self
                     .tree
@@ -662,8 +690,9 @@ impl World {
                     .iter()
                     .map(|h| h.as_bytes().try_into().unwrap())
                     .collect();
-                if req_anchor != anchor_hash
-                    || req_others != model_others
+                let fits_now = req_anchor == anchor_hash && req_others == model_others;
+                let fits_start = req_anchor == self.block(at_start.0).hash && &req_others == at_start.1;
+                if !(fits_now || fits_start)
                     || req_others.len() != init.processed_block_hashes.len()
                     || init.network != self.network
                 {
